@@ -34,6 +34,8 @@ def signature(ev):
         return "C06|duplicates"
     if not ev["same"]:
         return "C06|analysis-not-repeatable"
+    if not ev.get("kwcomp", True):
+        return "C06|user-word-lost"
     if not ev.get("onsame", True):
         return "C06|analysis-depends-on-history"
     if any(c < 0 for c in ev["oncmp"]):
